@@ -5,6 +5,7 @@ import (
 	"go/ast"
 	"go/constant"
 	"go/token"
+	"go/types"
 	"sort"
 	"strings"
 
@@ -236,6 +237,51 @@ func setString(m map[string]bool, drop ...string) string {
 }
 
 func runC05(c *eng.Ctx) {
+
+	// ---------------------------------------------------------------- (0) GUARD-far-key
+	// a section stores keys as 32-bit distances from its start: the map hands a key to a section only on the
+	// edge where the untruncated 64-bit distance is within the limit (Set opens a new section otherwise, Get and
+	// Delete report not found); a comparison made after truncating to 32 bits can never fail
+	for _, name := range []string{"(*CompactMap).Set", "(*CompactMap).Get", "(*CompactMap).Delete"} {
+		fn := c.NeedFunc("weed/storage/needle_map", name)
+		if fn == nil {
+			continue
+		}
+		short := name[strings.LastIndex(name, ".")+1:]
+		calls := eng.Find(fn, eng.PlainCallTo("needle_map.CompactSection)."+short))
+		within := func(cond ssa.Value) (bool, bool) {
+			b, ok := cond.(*ssa.BinOp)
+			if !ok || (b.Op != token.GTR && b.Op != token.LEQ) {
+				return false, false
+			}
+			k, isK := b.Y.(*ssa.Const)
+			if !isK || k.Value == nil || k.Value.ExactString() != "4294967295" {
+				return false, false
+			}
+			d, isSub := b.X.(*ssa.BinOp)
+			if !isSub || d.Op != token.SUB || !eng.IsParamLike(d.X, "key") || !eng.IsField(d.Y, "CompactSection.start") {
+				return false, false
+			}
+			if bt, isBasic := d.Type().Underlying().(*types.Basic); !isBasic || bt.Kind() != types.Uint64 {
+				return false, false
+			}
+			return true, b.Op == token.LEQ
+		}
+		if len(calls) != 1 {
+			c.Undecided("GUARD-far-key", eng.FuncName(fn), fn.Pos(), "section call not found")
+			continue
+		}
+		if short == "Set" {
+			// the existing section chosen by the search is used only within the limit; the freshly created section
+			// starts at the key itself: cut the within-limit edges and require that every remaining path to the
+			// section call passes the creation of a new section
+			hit, _ := eng.Search(eng.Entry(fn), eng.Is(calls[0]), eng.SearchOpt{Cut: eng.PassEdges(fn, within), Barrier: eng.PlainCallTo("needle_map.NewCompactSection")})
+			c.Ob("GUARD-far-key", eng.FuncName(fn)+" within-32-bit-distance", hit == nil && len(eng.PassEdges(fn, within)) > 0, calls[0].Pos(), "a key is stored in an existing section only when its 64-bit distance from the section start fits 32 bits; otherwise a new section is opened")
+		} else {
+			c.Guard("GUARD-far-key", "within-32-bit-distance", fn, eng.Entry(fn), calls, eng.PassEdges(fn, within), "a key is looked up / deleted in a section only when its 64-bit distance from the section start fits 32 bits")
+		}
+	}
+	c.Expect("GUARD-far-key", 3)
 	P := c.P
 	// ---------------------------------------------------------------- (1) LOCKSTEP
 	twin := map[string]string{"values": "valuesExtra", "overflow": "overflowExtra", "valuesExtra": "values", "overflowExtra": "overflow"}
